@@ -2197,7 +2197,14 @@ def remove(
             else:
                 # Treat relative paths as relative to the repository root
                 full_path = os.path.join(r.path, p_str)
-            tree_path = index.canonical_path(path_to_tree_path(r.path, full_path))
+            if os.path.isabs(p_str):
+                tree_path = path_to_tree_path(r.path, full_path)
+            else:
+                # A path relative to the repository root names an index entry
+                # directly; going through the file system would follow a
+                # symlink that has replaced one of its leading directories.
+                tree_path = _fs_to_tree_path(os.path.normpath(p_str))
+            tree_path = index.canonical_path(tree_path)
             # Convert to bytes for file operations
             full_path_bytes = os.fsencode(full_path)
             try:
